@@ -22,7 +22,7 @@ from trie import HexaryTrie
 from vt import gen
 from vt.core import Raised, Violation, cut, hx, unhx
 from vt.monitor.db import RecordingDB
-from vt.ref.mpt import BLANK_ROOT, RefTrie, rlp_enc
+from vt.ref.mpt import BLANK_ROOT, RefTrie, nibs, rlp_enc
 
 
 class Boom(Exception):
@@ -77,6 +77,72 @@ class BoomBase(BaseException):
 
 
 # ways a caller can leave a with-block exceptionally; index = optional 4th field of a batch op
+class PrefixDict(dict):
+    """A dict SUBCLASS that overrides the item protocol (it keeps every entry under a prefixed
+    key, as a store shared with other data would): whatever goes around __setitem__ /
+    __getitem__ / __delitem__ / __contains__ / pop / get - dict.update(), dict.get() ... -
+    misses the entries.  Harness-side helpers: raw(), snapshot(), hide(), supply()."""
+
+    P = b"trie-node:"
+
+    def __init__(self):
+        super().__init__()
+        self._hidden = {}
+        self.label = None
+        self.checkers = []
+        self.pending_trace_violation = None
+        self.events = []
+        self.writes = self.reads = self.deletes = 0
+
+    def __getitem__(self, key):
+        return dict.__getitem__(self, self.P + key)
+
+    def __setitem__(self, key, value):
+        dict.__setitem__(self, self.P + key, value)
+
+    def __delitem__(self, key):
+        dict.__delitem__(self, self.P + key)
+
+    def __contains__(self, key):
+        return dict.__contains__(self, self.P + key)
+
+    def pop(self, key, *default):
+        return dict.pop(self, self.P + key, *default)
+
+    def get(self, key, default=None):
+        return dict.get(self, self.P + key, default)
+
+    def setdefault(self, key, default=None):
+        return dict.setdefault(self, self.P + key, default)
+
+    def update(self, other=(), **kw):
+        for k, v in dict(other, **kw).items():
+            self[k] = v
+
+    # harness side
+    def raw(self):
+        n = len(self.P)
+        return {k[n:]: v for k, v in dict.items(self)}
+
+    snapshot = raw
+
+    def reset_counts(self):
+        pass
+
+    def hide(self, keys):
+        for k in keys:
+            if dict.__contains__(self, self.P + k):
+                self._hidden[k] = dict.pop(self, self.P + k)
+
+    def supply(self, key):
+        if key in self._hidden:
+            dict.__setitem__(self, self.P + key, self._hidden.pop(key))
+
+    @property
+    def hidden(self):
+        return set(self._hidden)
+
+
 ABORT_EXC = [Boom, BoomBase, KeyboardInterrupt, GeneratorExit, Abandon]
 ALL_ABORTS = tuple(ABORT_EXC)
 
@@ -216,8 +282,61 @@ def gen_history(rnd, nops, prune=None, batch_p=0.25, kind=None, abort_p=0.35, un
         "ops": ops,
         "universe": universe.kind,
         "in_handler": rnd.random() < 0.25,
-        "db": "dict" if rnd.random() < 0.15 else "recording",
+        "late_enter": rnd.random() < 0.2,
+        "db": rnd.choice(["dict", "dict", "dictsub", "dictsub"]) if rnd.random() < 0.25 else "recording",
     }
+
+
+_THRESHOLD_CANDIDATES = [bytes([c]) for c in (0x00, 0x01, 0x7F, 0x80, 0x81, 0xFF)] + [
+    bytes([c]) * L for L in range(2, 60) for c in (0x00, 0x61, 0x80)]
+
+
+def threshold_value(rnd, leaf_nibbles):
+    """A value for which the leaf [HP(leaf_nibbles, terminator), value] encodes to exactly 31, 32
+    or 33 bytes - computed with the REFERENCE RLP, for whatever length the leaf's own path has
+    (the embedding threshold depends on both, and on whether a one-byte value is >= 0x80)."""
+    from vt.ref.mpt import hp as ref_hp
+
+    key = ref_hp(list(leaf_nibbles), True)
+    good = [v for v in _THRESHOLD_CANDIDATES if 31 <= len(rlp_enc([key, v])) <= 33]
+    return rnd.choice(good) if good else rnd.choice(_THRESHOLD_CANDIDATES)
+
+
+def gen_threshold_history(rnd, prune=None):
+    """THRESHOLD family: two keys of n bytes (n = 1..34) that share d leading nibbles and then
+    part, so that both hang as leaves of r = 2n-d-1 nibbles under one branch; the first one's
+    value is chosen so that ITS LEAF is exactly 31 / 32 / 33 bytes of RLP.  Then: overwrite it
+    with another such value, delete the sibling (the leaf is merged upwards and changes size),
+    re-insert, delete - each step audited by the caller's monitors."""
+    n = rnd.randint(1, 34)
+    d = rnd.randrange(0, 2 * n)
+    base = bytearray(rnd.randrange(256) for _ in range(n))
+    other = bytearray(base)
+    byte, low = divmod(d, 2)
+    if low:
+        other[byte] = (base[byte] & 0xF0) | ((base[byte] + 1 + rnd.randrange(15)) & 0x0F)
+    else:
+        other[byte] = ((((base[byte] >> 4) + 1 + rnd.randrange(15)) & 0x0F) << 4) | (base[byte] & 0x0F)
+    for j in range(byte + 1, n):
+        other[j] = rnd.randrange(256)
+    k1, k2 = bytes(base), bytes(other)
+    leaf = nibs(k1)[d + 1:]
+    whole = nibs(k1)
+    w = make_w = bytes([rnd.randrange(256)]) * rnd.choice([1, 3, 40])
+    ops = [
+        ["set", k1.hex(), threshold_value(rnd, leaf).hex(), rnd.randrange(2)],
+        ["set", k2.hex(), w.hex(), rnd.randrange(2)],
+        ["set", k1.hex(), threshold_value(rnd, leaf).hex(), rnd.randrange(2)],
+        ["del", k2.hex(), rnd.randrange(2)],                                 # k1's leaf becomes the root leaf
+        ["set", k1.hex(), threshold_value(rnd, whole).hex(), rnd.randrange(2)],
+        ["set", k2.hex(), threshold_value(rnd, nibs(k2)[d + 1:]).hex(), rnd.randrange(2)],
+        ["batch", [["set", k1.hex(), threshold_value(rnd, leaf).hex(), 0], ["del", k1.hex(), 0],
+                   ["set", k1.hex(), threshold_value(rnd, leaf).hex(), 1]], None],
+        ["del", k1.hex(), rnd.randrange(2)],
+        ["del", k2.hex(), rnd.randrange(2)],
+    ]
+    return {"engine": "hh", "prune": bool(rnd.randrange(2)) if prune is None else prune,
+            "pseed": rnd.randrange(1 << 30), "ops": ops, "universe": "threshold", "threshold": [n, d]}
 
 
 def gen_bulk_history(rnd, tier="quick", **kw):
@@ -313,6 +432,10 @@ class Runner:
             self.db = DictShim()
             self.trie = HexaryTrie(self.db.d, prune=self.prune)
             ctx.count("histories_over_a_real_dict")
+        elif case.get("db") == "dictsub":
+            self.db = PrefixDict()
+            self.trie = HexaryTrie(self.db, prune=self.prune)
+            ctx.count("histories_over_a_dict_subclass")
         else:
             self.db = RecordingDB()
             self.trie = HexaryTrie(self.db, prune=self.prune)
@@ -404,10 +527,21 @@ class Runner:
             self.ctx.count("batch_abandoned_unexited")
             raise Abandon()
 
+        late = None
+        if self.case.get("late_enter") and self.model and abort is None and self.step % 3 == 0:
+            # the context manager is created, THEN the outer trie is written, THEN the block is
+            # entered: the batch starts from the contents at entry
+            late = self.trie.squash_changes()
+            k0 = sorted(self.model)[self.rnd.randrange(len(self.model))]
+            apply_plain(self.trie, self.model, ["set", k0.hex(), (self.model[k0][:40] + b"!").hex(), 0])
+            bmodel.clear()
+            bmodel.update(self.model)
+            self.ctx.count("batch_entered_late")
+
         def block():
             if abort is not None and exc is Abandon:
                 return abandoned()
-            with self.trie.squash_changes() as b:
+            with (late if late is not None else self.trie.squash_changes()) as b:
                 self.in_batch = True
                 for i, o in enumerate(sub):
                     if abort == i:
